@@ -500,3 +500,9 @@ MUTATIONS += [
     dict(id="C19-cache-read-partial-from-start", prop="C19", file=CAF, old="            .seek(SeekFrom::Start(u64::from(offset)))", new="            .seek(SeekFrom::Start(0))"),
     dict(id="C19-cache-read-partial-short-hit", prop="C19", file=CAF, old="        let mut vec = vec![0; length as usize];\n\n        file.read_exact(&mut vec).map_err(|err| {", new="        let mut vec = Vec::with_capacity(length as usize);\n\n        _ = file.take(u64::from(length)).read_to_end(&mut vec).map_err(|err| {"),
 ]
+
+MUTATIONS += [
+    # adapter-free form of seeded change C05-8: a file chunk that is only indexed as TREE blob is accepted
+    dict(id="C05-trees-data-blob-found-as-tree", prop="C05", file=CKF, old="                            match index.get_data(id) {", new="                            match index.get_data(id).or(index.get_id(BlobType::Tree, &BlobId::from(**id))) {"),
+    dict(id="C03-prune-early-delete-without-instant", prop="C03", file=PR, old="    let early_delete_index = opts.early_delete_index && opts.instant_delete;", new="    let early_delete_index = opts.early_delete_index;"),
+]
